@@ -28,12 +28,14 @@ K_SOCKRECV = {"unit": "sockrecv", "inject": "elvis-core/src/protocols/socket_api
 K_BUFID = {"unit": "bufid", "inject": "elvis-core/src/protocols/ipv4/reassembly/buf_id.rs", "crate": "elvis-core"}
 K_DHCP = {"unit": "dhcp", "inject": "elvis-core/src/protocols/dhcp/dhcp_parsing.rs", "crate": "elvis-core"}
 K_DNS = {"unit": "dns", "inject": "elvis-core/src/protocols/dns/dns_parsing.rs", "crate": "elvis-core"}
+K_FRAG = {"unit": "frag", "inject": "elvis-core/src/protocols/ipv4/fragmentation.rs", "crate": "elvis-core"}
+K_REASMMAP = {"unit": "reasmmap", "inject": "elvis-core/src/protocols/ipv4/reassembly.rs", "crate": "elvis-core"}
 K_IPGEN = {"unit": "ipgen", "inject": "elvis/src/ip_generator.rs", "crate": "elvis"}
 
 PROPS = {
     "C02": {
         "units": ["sockrecv", "tcb", "modcmp", "message"],
-        "kani": [K_SOCKRECV, K_SEGORD],
+        "kani": [K_SOCKRECV, K_SEGORD, K_TCB],
         "level": "proof",
         "technique": "Verus contract on the buffer arithmetic of the extracted Socket::recv (loop closed by an inductive invariant) over a ghost queue of pending messages; concrete witnesses replayed on the real async function",
         "level_text": "READ-SIDE SENTENCE ('a read that asks for at most n bytes never returns more than n, and successive reads never lose, duplicate or reorder bytes'): Socket::recv is verified, for every request size, every stored remainder and every queue of pending messages (unbounded number and sizes, arbitrary chunk layouts), to return at most `bytes` bytes and to satisfy  returned ++ pending_after == pending_before, where pending = stored remainder ++ concatenation of the queued messages in delivery order. By induction over calls the concatenation of successive reads is a prefix of what the socket was handed, in order, with nothing lost or duplicated; Socket::recv_msg is verified against the same ghost stream (it takes exactly the stored remainder, else the head message). Hand-over side: SocketSession::receive appends an accepted message at the end of what the socket will be handed (the channel when the socket exists, else the parked queue), and SocketSession::receive_stored_messages - the replay done by accept() - moves the parked messages into the channel in arrival order, each once. Of the first sentence of C02 (what the peer's socket is handed equals what was written) the per-call TCP pieces are included from the TCB unit (the clauses tagged C02: send() appends in order, segments() tiles the submitted text into consecutively numbered segments, the retransmission queue keeps every unacknowledged segment, the receive side appends exactly the text that continues the stream and hands the buffer out once, the reorder heap pops in circular sequence order); their composition across the network, Socket::send's task spawning, TcpSession's instruction queue and tokio schedules are NOT decided.",
@@ -63,7 +65,7 @@ PROPS = {
     },
     "C03": {
         "units": ["tcb", "modcmp", "message"],
-        "kani": [K_TCPHDR],
+        "kani": [K_TCPHDR, K_TCB],
         "level": "proof",
         "technique": "Verus contracts on the extracted tcb.rs functions: RFC 9293 Figure 5 transition relation as a postcondition of every state-changing function",
         "level_text": "Every state-changing TCB function carries the postcondition that (old state, new state, control bits) is an edge (or a two-step edge a single segment can take) of the RFC 9293 state diagram; the TCB is released only by the final ACK in LAST-ACK or by a reset; acceptable text is delivered in ESTABLISHED / FIN-WAIT-1 / FIN-WAIT-2 as far as the buffer has room (data before a close is not lost).",
@@ -73,7 +75,7 @@ PROPS = {
     },
     "C01": {
         "units": ["tcb", "modcmp", "message"],
-        "kani": [K_TCPHDR, K_SEGORD],
+        "kani": [K_TCPHDR, K_SEGORD, K_TCB],
         "level": "proof",
         "technique": "Verus contracts on the extracted tcb.rs functions: per-call stream-continuity contract on the receive path",
         "level_text": "Receive-side safety as a per-call contract on process_segment: bytes already buffered for the application are never altered; what is appended is exactly the part of the segment text that continues the stream at RCV.NXT; RCV.NXT advances by exactly that many octets (plus one for a consumed FIN); the buffer never exceeds the advertised window; acceptable in-order text is taken as far as there is room. By induction over calls the delivered stream is the concatenation of in-sequence segment texts.",
@@ -83,7 +85,7 @@ PROPS = {
     },
     "C11": {
         "units": ["reasm", "reasmmap", "message"],
-        "kani": [K_BITVEC, K_BUFID],
+        "kani": [K_BITVEC, K_BUFID, K_REASMMAP],
         "level": "proof",
         "technique": "Verus contracts on the extracted reassembly/{bitvec,fragment,segment}.rs functions; BinaryHeap by assumed specification",
         "level_text": "Per-call reassembly contract on Segment::receive_packet for all fragments and all prior states satisfying the representation invariant: exactly the blocks FO..FO+ceil(len/8) are marked, the final fragment fixes the total length, a datagram is returned exactly when the final fragment has been seen and every block is covered, the returned header is the offset-0 header with total length restored and MF cleared, an incomplete arrival bumps the epoch that guards expiry; PAYLOAD: relative to the datagram d whose slices the buffer holds (ghost parameter), for any arrival order and any exact repetitions of fragments, the pieces stay block-disjoint slices of d and the returned payload equals d byte for byte (tiling lemma over the heap's pop order, permutation lemma for push); BitVec get/set/set_range/range_complete/complete against the set-of-bits view (loops closed by invariants); Fragment order verified. ISOLATION (unit reasmmap): Reassembly::receive_packet, for any table of buffers each holding slices of the datagram its key stands for, leaves every buffer with another key untouched (fragments of different datagrams never mix), keeps that table invariant, passes an unfragmented datagram through and flushes its key, returns for a completed datagram exactly the datagram its key stands for and frees the buffer, and otherwise reports the key and epoch for the expiry timer; BufId::from_header is the RFC 791 (source, destination, protocol, identification) tuple.",
@@ -123,6 +125,7 @@ PROPS = {
     },
     "C10": {
         "units": ["frag", "message"],
+        "kani": [K_FRAG, K_MESSAGE],
         "level": "proof",
         "technique": "Verus contracts on the extracted fragmentation.rs functions (recursive procedure, termination proved) on top of the Message::cut contract",
         "level_text": "fragment() and the recursive Fragmentation::fragment are verified for all headers, payloads (unbounded chunk layouts) and MTUs >= 68 against the recursive specification frags_ok: every piece fits the MTU, pieces are consecutive slices of the payload at the 8-byte-aligned offsets recorded in their headers, MF is set on all but the piece that ends the datagram and that piece carries the datagram's own MF (which is the re-fragmentation clause), all other header fields are preserved; pass-through and DF-discard cases exact; every u16 operation proved free of overflow; termination by decreases |body|.",
@@ -152,7 +155,7 @@ PROPS = {
     },
     "C12": {
         "units": ["modcmp", "tcb", "message"],
-        "kani": [K_MODCMP, K_SEGORD],
+        "kani": [K_MODCMP, K_SEGORD, K_TCB],
         "level": "proof",
         "technique": "Verus contracts on the extracted modular_cmp.rs functions + Kani full-domain harnesses on the real crate",
         "level_text": "Every comparison primitive (mod_lt/leq/gt/geq/mod_bounded, ModCmp::offset) carries an exact postcondition against the mathematical circular order, discharged by Verus for all 2^32 x 2^32 (x 2^32) arguments and re-proved bit-precisely by loop-free Kani harnesses on the compiled crate; translation invariance is a lemma over those contracts. Connection level: the TCB contracts that determine the observables (text delivered and the movement of RCV.NXT, SND.UNA, SND.NXT, acceptability per RFC 9293 Table 6, the window-update rule, what the retransmission queue keeps, the numbering of new segments, the ISS/IRS bookkeeping of open and listen) are stated exclusively through circular distances and add32/sub32 relative to the TCB's own variables, so they are translation-invariant by form: any body that satisfies them behaves identically under a shift of either ISN on those observables, and a change that compares or subtracts absolute sequence numbers (saturating_sub, <, max) fails the clause for the inputs that straddle the wrap.",
